@@ -69,6 +69,10 @@ func judge(t *rapid.T, p ls.Program, what string) {
 	if p.EarlyWaiter {
 		ev.Label("Wait_called_straight_after_New")
 	}
+	if p.BornDone {
+		ev.Label("lane_created_on_a_context_that_is_already_done")
+		nt = true
+	}
 	if res.ByDeadline {
 		ev.Label("context_with_deadline")
 	}
